@@ -964,6 +964,14 @@ func (t *State) verifyDAGTxs(blockHeight int64, txs []*pb.Transaction, isRootTx 
 					return errors.New("dotx failed to ImmediateVerifyTx error")
 				}
 			}
+		} else {
+			// the transaction is neither verified nor executed because the pool already holds one
+			// with this id: the block's copy must then BE that transaction, i.e. hash to the id
+			realID, err := txhash.MakeTransactionID(tx)
+			if err != nil || !bytes.Equal(realID, tx.Txid) {
+				t.log.Warn("block tx carries the id of a pool tx but another content", "txid", fmt.Sprintf("%x", tx.Txid))
+				return errors.New("dotx failed to ImmediateVerifyTx error")
+			}
 		}
 	}
 
